@@ -30,10 +30,17 @@ class EEMSRead(Command):
         path = kwargs["InFileName"]
 
         with open(path, "r") as f:
-            reader = csv.reader(f.readlines())
+            lines = f.readlines()
+
+            # A byte order mark (written by spreadsheet programs in front of UTF-8 text) is not part of the table
+            if lines and lines[0].startswith(u"\ufeff"):
+                lines[0] = lines[0][1:]
+
+            reader = csv.reader(lines)
 
             try:
-                headers = next(reader)
+                # Blank lines are skipped, also in front of the header
+                headers = next(row for row in reader if row)
             except StopIteration:
                 raise EmptyDataFile(path)
 
